@@ -207,6 +207,12 @@ let run toks =
       "ok " ^ bool_s (List.mem (bx tok) (candidates (hash_of t) (bx k) (if fp = "none" then None else Some (bx fp)) (zd now) (zd i)))
   | ["tostring"; z] -> hx (to_string (zd z))
   | "args" :: rest -> verdict_s (args_run rest)
+  | ["ssconc"; p] ->   (* what a thread's own secret_string must reveal (C18_recall): set p; rotate; move; moved-from; set (first half) *)
+      let l = bx p in let rec take n = function [] -> [] | x :: r -> if n = 0 then [] else x :: take (n - 1) r in
+      String.concat "," [hx l; hx l; hx l; "-"; hx (take (List.length l / 2) l)]
+  | ["sbconc"; d] ->   (* C16_refines_vector: copy, resize(2n+1), move, clear *)
+      let l = bx d in let n = List.length l in
+      hx (l @ List.init (n + 1) (fun _ -> N0)) ^ ",-" 
   | "oom" :: _ -> "ref=ok every-failure=bad_alloc no-leak state-ok usable"   (* C20: the only acceptable summary of an allocation-failure sweep; the allowed object states are those of Properties_C20 *)
   | "needles" :: api :: a ->
       (* the derived values that must never be found in released memory: contents of every temporary of the inventory (>= 8 bytes, deduplicated) *)
